@@ -190,7 +190,13 @@ impl Check for C11 {
                     pats.push(format!("{}+1", x));
                     pats.push(format!("1*{}", x));
                     pats.push(format!("^{}$", x));
+                    pats.push(format!("[\\p{{Lu}}{}]", if x == l { '1' } else { x }));
+                    pats.push(format!("^[^\\p{{Lu}}1]$"));
+                    pats.push(format!("[1-[\\p{{Ll}}]]|{}", x));
+                    pats.push(format!("(?:({}|1)\\1)+", x));
                 }
+                pats.push("[\\p{Lu}_]".to_string());
+                pats.push("[0-9\\p{Ll}]+".to_string());
                 let mut inputs: Vec<String> = vec![];
                 for a in [l, u].iter().chain(CASELESS.iter()) {
                     inputs.push(a.to_string());
